@@ -3,8 +3,9 @@
 //! oracle (`num`).
 
 pub mod c41;
+pub mod c42;
 pub mod num;
 
 pub fn checks() -> Vec<vf_core::Check> {
-    vec![c41::check()]
+    vec![c41::check(), c42::check()]
 }
